@@ -285,10 +285,83 @@ fn run_member(line: &str) -> String {
     out
 }
 
+// ------------------------------------------------------------------------------------------------ c11_split
+
+/// Simple Unix template paths: optional leading slash, 1-3 segments of name characters (dots anywhere), no `.` /
+/// `..` segments inside, no trailing slash; plus the three shapes without a file name.
+fn gen_split(rng: &mut Rng, _tier: Tier, n: usize) -> Vec<String> {
+    let mut out: Vec<String> = ["", ".", "..", "app", "app.log", "logs/app.log", "/app.log", "/var/log/my.app.txt", ".hidden", "logs/.hidden", "a.", "logs/a.", ".a.b", "app.tar.gz", "x/.."]
+        .iter()
+        .map(|p| Sexp::tagged("split", vec![Sexp::str(p)]).to_string())
+        .collect();
+    let seg = |rng: &mut Rng| -> String {
+        let alphabet = ["a", "b", "app", "log", ".", ".", "-", "_", "2", "\u{e9}"];
+        loop {
+            let k = rng.range(1, 4);
+            let s: String = (0..k).map(|_| *rng.pick(&alphabet)).collect();
+            if s != "." && s != ".." {
+                return s;
+            }
+        }
+    };
+    while out.len() < n {
+        let k = rng.range(1, 3);
+        let mut p = String::new();
+        if rng.chance(1, 4) {
+            p.push('/');
+        }
+        for i in 0..k {
+            if i > 0 {
+                p.push('/');
+            }
+            p.push_str(&seg(rng));
+        }
+        out.push(Sexp::tagged("split", vec![Sexp::str(&p)]).to_string());
+    }
+    out.truncate(n.max(15));
+    out
+}
+
+fn run_split(line: &str) -> String {
+    let parsed = (|| {
+        let s = Sexp::parse(line)?;
+        let (t, a) = s.as_tagged()?;
+        if t != "split" || a.len() != 1 {
+            return None;
+        }
+        a[0].as_string()
+    })();
+    let path = match parsed {
+        Some(p) => p,
+        None => return "bad-case".to_string(),
+    };
+    // outside the modelled grammar: empty segments, `.`/`..` segments in front of a name, trailing slash
+    let segs: Vec<&str> = path.strip_prefix('/').unwrap_or(&path).split('/').collect();
+    let simple = path.is_empty()
+        || (segs.iter().all(|s| !s.is_empty()) && segs[..segs.len() - 1].iter().all(|s| *s != "." && *s != ".."));
+    if !simple || (path.starts_with('/') && path.len() == 1) {
+        return "bad-case".to_string();
+    }
+    match verif::dir_prefix_ext(std::path::Path::new(&path)) {
+        Err(_) => "err".to_string(),
+        Ok((d, p, e)) => {
+            let mut out = format!("{} {} {}", hcommon::hex_atom(d.as_bytes()), hcommon::hex_atom(p.as_bytes()), hcommon::hex_atom(e.as_bytes()));
+            // oracle: the created names start with the stem and end with the extension of the template's file name
+            let name = path.rsplit('/').next().unwrap_or("");
+            let ok = name == format!("{}.{}", p, e) || (e == "log" && name == p);
+            if !ok {
+                out.push_str("\tFAIL:split");
+            }
+            out
+        }
+    }
+}
+
 pub fn streams() -> Vec<Stream> {
     vec![
         Stream { name: "c11", gen: gen_c11, run },
         Stream { name: "c11_name", gen: gen_name, run: run_name },
         Stream { name: "c11_member", gen: gen_member, run: run_member },
+        Stream { name: "c11_split", gen: gen_split, run: run_split },
     ]
 }
